@@ -294,7 +294,9 @@ func runHsrvCase(t *testing.T, c map[string]any, tmp string) map[string]any {
 			if b, _ := am["halfclose"].(bool); b { /* printf 'GET ...' | openssl s_client: request sent, then close_notify */
 				tc.CloseWrite()
 			}
-			tc.SetReadDeadline(time.Now().Add(time.Duration(1000) * time.Millisecond))
+			/* Patience for the FIRST byte where the caller says an answer is due (first_byte_ms: a stalled machine must not look like a server
+			which does not answer); once bytes flow, a second of silence ends the reading (streams which stay open by design). */
+			tc.SetReadDeadline(time.Now().Add(time.Duration(vnum(am["first_byte_ms"], 1000)) * time.Millisecond))
 			var buf bytes.Buffer
 			b := make([]byte, 65536)
 			for {
@@ -303,6 +305,7 @@ func runHsrvCase(t *testing.T, c map[string]any, tmp string) map[string]any {
 				if nil != err {
 					break
 				}
+				tc.SetReadDeadline(time.Now().Add(1000 * time.Millisecond))
 				if resp, e2 := http.ReadResponse(bufio.NewReader(bytes.NewReader(buf.Bytes())), nil); nil == e2 {
 					if body, e3 := io.ReadAll(resp.Body); nil == e3 && (resp.ContentLength >= 0 || resp.Close) {
 						_ = body
@@ -623,7 +626,7 @@ func runHsrvCase(t *testing.T, c map[string]any, tmp string) map[string]any {
 		case "probe": /* does the listening socket still accept connections? */
 			deadline := time.Now().Add(time.Duration(vnum(am["wait_ms"], 0)) * time.Millisecond)
 			for {
-				nc, err := net.DialTimeout("tcp", addr, 500*time.Millisecond)
+				nc, err := net.DialTimeout("tcp", addr, 3*time.Second) /* a closed port refuses at once; the time is for a stalled machine */
 				if nil == err {
 					nc.Close()
 					ar["open"] = true
